@@ -95,8 +95,8 @@ RENAMES = {
 }
 
 
-def h_rename(ctx, cls, kind, sizes, params):
-    """O11.2 renaming the categories by an order-preserving bijection."""
+def h_rename(ctx, cls, kind, sizes, params, perm="none", rename=True):
+    """O11.2 renaming the categories by an order-preserving bijection and/or permuting the rows."""
     from AutoCarver import BinaryCarver, ContinuousCarver
 
     old, new = RENAMES[kind]
@@ -113,8 +113,20 @@ def h_rename(ctx, cls, kind, sizes, params):
         y = pd.Series([v + 0.01 * i for i, v in enumerate(ycol)])
     else:
         y = pd.Series(ycol)
+    if not rename:
+        new = old
     mp = dict(zip(old, new))
-    X2 = pd.DataFrame({"f": pd.Series([mp[v] for v in col], dtype=object)})
+    n_rows = len(col)
+    order = list(range(n_rows))
+    if perm == "reverse":
+        order = order[::-1]
+    elif perm == "interleave":
+        order = order[::2] + order[1::2]
+    elif perm == "rotate":
+        r = 1 + ctx.choose("rot", n_rows - 1)
+        order = order[r:] + order[:r]
+    X2 = pd.DataFrame({"f": pd.Series([mp[col[i]] for i in order], dtype=object)})
+    y2 = pd.Series([list(y)[i] for i in order])
 
     def mk(names):
         p = dict(params)
@@ -124,18 +136,24 @@ def h_rename(ctx, cls, kind, sizes, params):
             return ContinuousCarver(copy=True, **kw, **p)
         return BinaryCarver(copy=True, **kw, **p)
 
+    what = ("renaming %s" % mp if rename else "") + (" row permutation %s" % perm if perm != "none" else "")
     a, sa = _fit(cls, params, X, y, lambda: mk(old))
-    b, sb = _fit(cls, params, X2, y, lambda: mk(new))
-    ctx.require(sa == sb, "C11.category-renaming", f"fit {sa} before and {sb} after renaming {mp}")
+    b, sb = _fit(cls, params, X2, y2, lambda: mk(new))
+    ctx.require(sa == sb, "C11.category-renaming" if rename else "C11.row-permutation", f"fit {sa} before and {sb} after {what}")
     if a is None:
         return dict(counters={"refused": 1}, sample=dict(kind=kind, sizes=sizes), result=dict(outcome=sa))
     ka, kb = "f" in a.features, "f" in b.features
-    ctx.require(ka == kb, "C11.category-renaming", f"feature kept={ka} before, kept={kb} after renaming {mp} (y={ycol})")
+    kindv = "C11.category-renaming" if rename else "C11.row-permutation"
+    ctx.require(ka == kb, kindv, f"feature kept={ka} before, kept={kb} after {what} (y={ycol})")
     part = None
     if ka:
         pa = row_partition(list(a.transform(X)["f"]))
-        pb = row_partition(list(b.transform(X2)["f"]))
-        ctx.require(pa == pb, "C11.category-renaming", f"row partition {pa} becomes {pb} after renaming {mp} (y={ycol})")
+        outb = list(b.transform(X2)["f"])
+        back = [None] * n_rows
+        for pos_, r_ in enumerate(order):
+            back[r_] = outb[pos_]
+        pb = row_partition(back)
+        ctx.require(pa == pb, kindv, f"row partition {pa} becomes {pb} after {what} (sizes {sizes}, y={ycol})")
         part = pa
     return dict(counters={"ok": 1}, sample=dict(kind=kind, sizes=sizes, y=ycol, kept=ka), result=dict(kept=ka, part=part))
 
@@ -161,6 +179,9 @@ def obligations(tier):
         for kind in RENAMES:
             for sizes in ([(3, 3, 2)] if quick else [(3, 3, 2), (2, 2, 2, 2), (4, 1, 3)]):
                 ren_jobs.append(dict(cls=cls, kind=kind, sizes=sizes, params=dict(min_freq=0.2, sort_by="cramerv", max_n_mod=3, output_dtype="str", dropna=True)))
+                for perm in (("reverse", "interleave") if quick else ("reverse", "interleave", "rotate")):
+                    if kind != "qual_case":
+                        ren_jobs.append(dict(cls=cls, kind=kind, sizes=sizes, params=dict(min_freq=0.2, sort_by="cramerv", max_n_mod=3 if perm != "interleave" else 2, output_dtype="str", dropna=True), perm=perm, rename=False))
     return [
         k_quantiles.obligation(tier, {"C11"}, "O11.1a find_quantiles: every row falls in the same bucket after any strictly increasing re-encoding; boundaries do not depend on row order", ["iso", "perm"]),
         Obligation(name="O11.1b complete fit: same kept features and same induced row partition after any strictly increasing re-encoding of a quantitative feature",
@@ -169,7 +190,7 @@ def obligations(tier):
         Obligation(name="O11.3 complete fit: same kept features and row partition after a solver-chosen row permutation with index relabelling (offset, shuffled ints, strings)",
                    harness=h_rows, jobs=rows_jobs, encodes=k_api.ENC_COMMON + k_api.ENC_CARVER, rebindings=k_api.RB,
                    bounds=f"n=3{'' if quick else '-4'} symbolic rows (+0/1 NaN): all permutations (N<=3) or reversal/rotations/transposition", twin_every=7, budget_s=6.0),
-        Obligation(name="O11.2 complete fit on a qualitative / ordinal feature: same kept features and row partition after an order-preserving renaming of the categories",
+        Obligation(name="O11.2 complete fit on a qualitative / ordinal feature: same kept features and row partition after an order-preserving renaming of the categories, and after row permutations (target-rate ties reachable)",
                    harness=h_rename, jobs=ren_jobs, encodes=["QualitativeDiscretizer.fit", "CategoricalDiscretizer.fit", "OrdinalDiscretizer.fit", "StringDiscretizer.fit"] + k_api.ENC_CARVER,
                    bounds="3-4 categories with concrete sizes, positives per category solver-chosen; categorical (two name sets) and ordinal (non-alphabetical ranking) features", twin_every=5, budget_s=6.0),
     ]
